@@ -385,6 +385,11 @@ def modelItemsG {α : Type} (dflt : Field → α) (fl : Field → Val → Outcom
               :: modelItemsG dflt fl kvs missing rest true
       else (none, .ok (dflt f)) :: modelItemsG dflt fl kvs missing rest reported
 
+/-- a default is never the argument: whatever the caller says that is not `const` is `fresh` -/
+def dfltProv : Prov → Prov
+  | .const => .const
+  | _ => .fresh
+
 /-- the generated model loader (loader_gen.py). An absent optional field takes
     `_get_default_clause_expr`: an inline literal evaluated by every call or `dfl_<id>()` (`fresh`),
     or the captured constant `dfl_<id>` (`const`); which one is the caller-supplied `dp cls field`.
@@ -394,7 +399,7 @@ def loadModelP (cfg : Cfg) (dp : String → String → Prov) (cls : String) (fie
   match d with
   | .dict kvs =>
     bindO (seqModeG cfg.trail
-            (modelItemsG (fun f => PVal.ofVal (dp cls f.name) f.default) fl kvs
+            (modelItemsG (fun f => PVal.ofVal (dfltProv (dp cls f.name)) f.default) fl kvs
               (missingRequired fields kvs) fields false))
       (fun vals => .ok (.node .fresh (.obj cls (fields.map (·.name))) vals))
   | _ =>
